@@ -168,6 +168,11 @@ class Report:
                 print('  FAILED %s %s:%d [%s] %s -- %s' % (o.rule, o.file, o.line, o.construct, o.what, o.detail))
             print('VIOLATION property=%s replay=%s' % (self.pid, replay))
             return 1
+        # nothing to replay: a replay file left by an earlier run of this property would be stale
+        try:
+            os.remove(os.path.join(EVID_DIR, self.pid + '.violation.json'))
+        except OSError:
+            pass
         return 0
 
 
